@@ -12,6 +12,40 @@ NOT_BUILT = "check not built yet in this round (claimed by DESIGN.md; " \
             "listed here until its static check exists and is exact)"
 
 CHECKS = {
+    "C05": {
+        "text": "The tour_length kernel is summarised by loop-reduction "
+                "recognisers into a closed form that must equal the cyclic "
+                "edge sum for symbolic matrix/tour/size; the constructor's "
+                "bound computations are summarised likewise (sum of row "
+                "maxima / minima excluding the diagonal); must-pass-through "
+                "of the entry-by-entry copy verification, the 64-bit "
+                "accumulator, the 2^63 cap and the symmetry-flag protocol "
+                "are decided on the CFG / guard conditions.",
+        "design_ref": "DESIGN.md section 4, C05",
+        "note": "Decides D5.1-D5.4. Trusted: N1 (kernel integer scalars "
+                "are 64 bit), N3 (index -1 wraps), entries non-negative "
+                "(property domain).",
+        "technique": "loop-reduction normal forms (symbolic closed-form "
+                     "equality) + CFG dominance + guard-condition matching",
+    },
+    "C09": {
+        "text": "The _evaluate kernel's closed form must equal the double "
+                "sum of flows[i,j]*distances[x[i],x[j]] up to bound-variable "
+                "renaming and the wrapper must bind the matrices to the "
+                "kernel parameters of the same name; trivial_bounds is "
+                "abstractly interpreted over (source matrix, sort order, "
+                "buffer identity) to prove lb anti-sorted / ub co-sorted "
+                "without aliasing or clobbered operands; the constructor "
+                "only tightens; the parser binds the first-filled list to "
+                "`flows`.",
+        "design_ref": "DESIGN.md section 4, C09",
+        "note": "Decides D9.1-D9.4. Not decided: independence of line "
+                "wrapping (runtime tokenisation). Trusted: N1, property "
+                "domain ub < 10^15.",
+        "technique": "loop-reduction normal forms + small abstract "
+                     "interpretation of numpy array order/aliasing + "
+                     "parameter-binding agreement",
+    },
     "C04": {
         "text": "The acceptance condition of PackingSpace.validate is "
                 "reconstructed from every raise guard and decided "
